@@ -37,6 +37,7 @@ func (c *Ctx) ParticipantsAsSent(prop string) {
 				continue
 			}
 			F := fn
+			listVal := arg
 			root := sliceRootExact(arg)
 			// the list may be built by a helper that is given the request's list
 			if call, ok := root.(*ssa.Call); ok && !call.Call.IsInvoke() {
@@ -53,8 +54,48 @@ func (c *Ctx) ParticipantsAsSent(prop string) {
 					}
 					if same && r0 != nil {
 						F, root = h, r0
+						if len(rets) == 1 {
+							listVal = an.Result(rets[0], 0)
+						}
 					}
 				}
+			}
+			// append form: list := make(_, 0, n); for _, p := range reqList { list = append(list, &Endpoint{ID: p.GetId(), ...}) }
+			if okApp := func() bool {
+				for _, l := range FindLoops(F) {
+					if !l.FullRange || l.BoundLen == nil {
+						continue
+					}
+					elem, src, ok := appendedPerIteration(F, listVal, l.BoundLen)
+					if !ok || src.Header != l.Header {
+						continue
+					}
+					obj, isAlloc := elem.(*ssa.Alloc)
+					if !isAlloc {
+						continue
+					}
+					for _, r := range *obj.Referrers() {
+						fa, ok := r.(*ssa.FieldAddr)
+						if !ok || fieldNameOf(fa) != "ID" {
+							continue
+						}
+						for _, r2 := range *fa.Referrers() {
+							s3, ok := r2.(*ssa.Store)
+							if !ok || s3.Addr != ssa.Value(fa) {
+								continue
+							}
+							if call, ok := s3.Val.(*ssa.Call); ok && call.Call.StaticCallee() != nil && call.Call.StaticCallee().Name() == "GetId" && len(call.Call.Args) == 1 {
+								if r0, idx, ok := elemLoad(call.Call.Args[0]); ok && idx == l.Idx && r0 == l.BoundLen {
+									return true
+								}
+							}
+						}
+					}
+				}
+				return false
+			}(); okApp {
+				c.R.OK(rule, Fn(F), c.Pos(ci), "one entry appended per participant of the request, in order, each with that participant's id")
+				continue
 			}
 			mk, ok := root.(*ssa.MakeSlice)
 			if !ok {
